@@ -203,6 +203,36 @@ fn main() {
         t
     });
 
+    // S3b: word-limit operands (+-2^31, 2^32, 2^63, 2^64, 2^127, 2^128 and neighbours) against small and
+    // word-limit divisors, equal and differing scales
+    let mut lim: Vec<BigInt> = vec![];
+    for e in [31usize, 32, 63, 64, 127, 128] {
+        for d in [-1i64, 0, 1] {
+            lim.push((BigInt::from(1) << e) + d);
+            lim.push(-((BigInt::from(1) << e) + d));
+        }
+    }
+    let mut small: Vec<BigInt> = [1i64, -1, 2, -2, 3, -3, 10, 7].iter().map(|v| BigInt::from(*v)).collect();
+    small.extend(lim.iter().cloned());
+    run.bound("S3b_word_limit_operands", lim.len());
+    run.par("S3b word-limit operands", lim.len(), |i| {
+        let mut t = Tally::default();
+        for b in small.iter() {
+            for (sa, sb) in [(0i128, 0i128), (3, 3), (-2, -2), (0, 1), (1, 0), (5, 0), (0, 21)] {
+                for (x, y) in [(&lim[i], b), (b, &lim[i])] {
+                    let a = Dec { n: x.clone(), s: sa };
+                    let bb = Dec { n: y.clone(), s: sb };
+                    t.states += 1;
+                    t.nontrivial += 5;
+                    for v in check(&fs, &a, &bb, &bd(&a), &bd(&bb), &mut t) {
+                        run.report(v);
+                    }
+                }
+            }
+        }
+        t
+    });
+
     // S4: zero divisors at scales {0, +-5} must panic in every form
     run.seq("S4 zero divisors", || {
         let mut t = Tally::default();
